@@ -66,6 +66,13 @@ Fixpoint lstrip (s : str) : str := match s with c :: t => if U_space c then lstr
 Definition rstrip (s : str) : str := rev (lstrip (rev s)).
 Definition strip (s : str) : str := rstrip (lstrip s).
 
+(* the white space float() / int() accept around a number: C isspace for ASCII (\t \n \v \f \r and the blank; NOT the
+   separators 0x1C-0x1F that str.strip() removes) and, for non-ASCII characters, the Unicode spaces *)
+Definition F_space (c : N) : bool :=
+  if (c <? 128)%N then ((9 <=? c) && (c <=? 13) || (c =? 32))%N else in_ranges gen_uspace_ranges c.
+Fixpoint flstrip (s : str) : str := match s with c :: t => if F_space c then flstrip t else s | [] => [] end.
+Definition fstrip (s : str) : str := rev (flstrip (rev (flstrip s))).
+
 Definition py_float_body (neg : bool) (s : str) : option flt :=
   let low := map lower_ascii s in
   if str_eqb low (U "inf") || str_eqb low (U "infinity") then Some (S754_infinity neg)
@@ -96,7 +103,7 @@ Definition py_float_body (neg : bool) (s : str) : option flt :=
     end.
 
 Definition py_float (s0 : str) : option flt :=
-  let s := strip s0 in
+  let s := fstrip s0 in
   match s with
   | 45%N :: t => py_float_body true t
   | 43%N :: t => py_float_body false t
